@@ -812,6 +812,26 @@ def gen_case(rng, ideal):
                 do(['recv', h, data])
             elif x < 0.9:
                 do(['advfire' if ideal else 'adv', rng.choice([10, 50, 100, 150, 200, 400, 1000])])
+            elif x < 0.92:
+                # close_link() with another thread acting at its hand-over points, then usually an immediate reopen
+                hooks = {}
+                for key in ('c0', 'c1', 'd'):
+                    if rng.random() < 0.5:
+                        inner = []
+                        for _ in range(rng.choice([1, 1, 2])):
+                            h, e = (rng.choice(sent) if sent and rng.random() < 0.5 else (rng.choice(hdrs), rng.choice(exps)))
+                            if rng.random() < 0.6 or not sent:
+                                inner.append(['send', rid, h, [rng.randrange(256)], e, rng.choice(tmos)])
+                            else:
+                                inner.append(['recvcb', h, list(e) + [b], [[rid, h, [rng.randrange(256)], e, rng.choice(tmos)]]])
+                            sent.append((h, e))
+                            rid += 1
+                        hooks[key] = inner
+                do(['closex', hooks])
+                if rng.random() < 0.8:
+                    if rng.random() < 0.5:
+                        do(['advfire' if ideal else 'adv', rng.choice([10, 50, 150])])
+                    do(['open', True])
             elif x < 0.94:
                 do(['close'])
             elif x < 0.97:
@@ -886,7 +906,7 @@ def _nontrivial(case, res):
 
 
 def tie(ctx):
-    cases = corpus_cases() + callback_cases()
+    cases = corpus_cases() + callback_cases() + close_step_cases()
     for _ in range(ctx.scale(1000, 20000)):
         cases.append(gen_case(ctx.rng, ideal=ctx.rng.random() < 0.4))
     ress = [drv.run_events(c['events']) for c in cases]
@@ -1014,13 +1034,24 @@ def judge(case, events, res):
     reqs = {}           # rid -> dict
     pending = {}        # pattern(tuple) -> [rids sharing the pattern, newest last]
     flat = []
-    for i, e in enumerate(events):
+
+    def flatten(i, e):
         if e[0] == 'recvcb':
             # the packet can only answer what was sent BEFORE it arrived; what its handler sends comes after
             flat.append((i, ['recv', e[1], e[2], 'cb']))
-            flat += [(i, ['send'] + list(f) + ['cb']) for f in e[3]]
+            flat.extend((i, ['send'] + list(f) + ['cb']) for f in e[3])
+        elif e[0] == 'closex':
+            # close_link() in steps: what another thread does inside link.close() still belongs to the old session; the
+            # session ends with the close; what happens in the disconnected callbacks comes after it
+            for x in (e[1].get('c0') or []) + (e[1].get('c1') or []):
+                flatten(i, x)
+            flat.append((i, ['close']))
+            for x in e[1].get('d') or []:
+                flatten(i, x)
         else:
             flat.append((i, e))
+    for i, e in enumerate(events):
+        flatten(i, e)
     cb_ok = False
     for i, e in flat:
         k = e[0]
@@ -1075,7 +1106,7 @@ def judge(case, events, res):
     final_flush = bool(events) and events[-1][0] == 'flushall' and link
     # A. nothing on a closed / replaced link (all packets, also those the library sends by itself)
     for t in res['tx']:
-        if t['closed'] or not t['current']:
+        if (t['closed'] and not t.get('dropped')) or not t['current']:
             return fail('transmitted_on_closed_link', 'packet (request %s) handed to the link of session %s which is closed or '
                         'no longer the current link, during event %d' % (t['rid'], t['sess'], t['ev']), observed=t)
     by = {}
@@ -1179,6 +1210,24 @@ def enum_cases(depth):
         yield {'events': evs, 'ideal': False}
 
 
+def close_step_cases():
+    """close_link() as steps: a request sent / a reply handled (its handler sends the next request) by another thread at
+    each hand-over point of the close, then open_link at once or a little later, then time passes."""
+    out = []
+    S = lambda rid, e=(7,), tmo=100: ['send', rid, 0x90, [rid], list(e), tmo]       # noqa: E731
+    for key in ('c0', 'c1', 'd'):
+        for delay in (0, 40, 150):
+            for inner in ([S(1)], [['recvcb', 0x90, [5, 1], [[1, 0x90, [1], [5], 100]]]], [S(1), S(2, e=(7, 8), tmo=50)]):
+                evs = [['open', True], ['send', 0, 0x90, [0], [5], 100], ['advfire', 30], ['closex', {key: inner}]]
+                if delay:
+                    evs.append(['advfire', delay])
+                evs += [['open', True], ['advfire', 450]]
+                out.append({'events': evs, 'ideal': True})
+    out.append({'events': [['open', True], ['closex', {'c0': [S(1)], 'c1': [S(2, e=(9,))], 'd': [S(3, e=(4,))]}], ['open', True],
+                           ['send', 4, 0x90, [4], [7], 100], ['advfire', 250]], 'ideal': True})
+    return out
+
+
 def callback_cases():
     """Requests issued from inside the handler of a reply (ideal timing): follow-up with the same / another pattern, lost
     k times and then answered or never answered, chains of polls."""
@@ -1228,7 +1277,7 @@ def oracle(ctx, deep=False):
         if f and f['class'] not in {x['class'] for x in fails}:
             # shortest failing history first (enumeration is by length): no further shrinking needed
             fails.append(f)
-    cases = corpus_cases() + callback_cases() + list(enum_cases(ctx.scale(3, 5)))
+    cases = corpus_cases() + callback_cases() + close_step_cases() + list(enum_cases(ctx.scale(3, 5)))
     for _ in range(ctx.scale(4000, 80000) * (3 if deep else 1)):
         cases.append(gen_case(ctx.rng, ideal=ctx.rng.random() < 0.6))
     for c in cases:
